@@ -59,6 +59,11 @@ THEOREMS = [
     "Verif.C04.neg_scalar_spec",
     "Verif.C04.arith_chain",
     "Verif.C04.sub_eq_add_neg",
+    "Verif.C04.applyX_finite",
+    "Verif.C04.div_zero_spec",
+    "Verif.C04.arithX_spec",
+    "Verif.C04.arithX_refused",
+    "Verif.C04.arithX_eq_arith",
     "Verif.C04.F9_witness",
 ]
 RULE = (
@@ -78,7 +83,7 @@ RULE = (
     "factor; thorough: p = 10..24, round decimal and random lengths; the WHOLE answer is judged by a NumPy oracle that "
     "finds every window from the timestamps, the model answers windows of it at both ends, beyond the end and around "
     "every round source offset: ops c04.bywin / c04.towin) + malformed stream (non-list or empty range lists, rows of wrong length, invalid where/method, "
-    "upsampling, variable spacing without force, time-series by, wrong reference kinds, factor 0). Values are integers "
+    "upsampling, variable spacing without force, time-series / time-tag by, wrong reference kinds, factor 0, different masks, non-channel operands). Values are integers "
     "or dyadic rationals (exact in double). Deepening round D: every second small-scope / random downsampling call leaves out "
     "the arguments that have their default value; over / by / like are called a second time with a reduce callable that "
     "records what it is handed (ops c04.overwins, c04.bywins, c04.likewins); self[a:b] for every pair of bounds around small "
@@ -86,7 +91,12 @@ RULE = (
     "pattern of 4 periods from {2, 3, 5}; frequencies as Python ints, 0, -0.0, nan, +-inf, negative, huge, tiny and "
     "arbitrary random floats (the model converts the frequency itself, c04.tof), the conversion alone for every period "
     "<= 300 (thorough 3000) with its neighbouring doubles (c04.step); negation, scalar operands on both sides, chains "
-    "(a op b) op c (c04.neg, c04.ariths, c04.arith3). Non-trivial: a successful answer with at least one output sample from a "
+    "(a op b) op c (c04.neg, c04.ariths, c04.arith3). Strengthening round H: divisors keep their zeros (x/0 = +-inf, 0/0 = nan, "
+    "judged element-wise and through chains by the model's extended values and an IEEE oracle): every pair of two-sample "
+    "channels over {-1, 0, 2} for /, scalar 0 (int / float) on either side, all 16 operator chains over operands full of "
+    "zeros, 35% of the random arithmetic cases count-like (mostly zeros), half of those stored as int64; operands that went "
+    "through a boolean mask first (every mask pair on 3 samples, 15% of the random cases); operands that are neither channel "
+    "nor number and downsampled_by on time tags (malformed stream); the public start of a result is its first timestamp. Non-trivial: a successful answer with at least one output sample from a "
     "source that holds more samples than the output (so some window reduced several samples or samples were left "
     "out); by: k>=2 and at least one block; arithmetic: at least one sample; malformed stream: a refusal."
 )
@@ -102,6 +112,7 @@ ASSUMPTIONS = [
     "continuous channels have dt >= 1; time-series timestamps are int64, strictly increasing for downsampled_to and for reference channels, non-decreasing elsewhere",
     "reduce is one of np.mean, np.sum, np.min, np.max, np.median (the theorems hold for an arbitrary function of the window's values)",
     "range lists handed to downsampled_over are judged for refusals by the code's own hull criterion (first start / last stop); for lists that are not ordered in time a RuntimeError can be raised although an inner window lies inside the channel (observation, not asserted)",
+    "division by zero: every divisor (source channel or scalar) holds +0.0, never -0.0 (sources are built from Fractions); signed zeros are not modelled -- a numerator -0.0 gives the same nan / finite answers",
     "downsampled_like: the oracle's disjointness / within-span clauses are asserted for references with a constant period or isolated frame-rate changes; arbitrary increasing references (period growing twice in a row makes the repaired windows overlap) are checked against the model and for the value/timestamp clauses only",
 ]
 
@@ -149,7 +160,10 @@ def py_reduce(name, vals):
 
 def build(src):
     channel = _ch()
-    vals = np.array([float(fr(v)) for v in src["vals"]], dtype=float)
+    if src.get("dtype") == "int" and all(fr(v).denominator == 1 for v in src["vals"]):
+        vals = np.array([int(fr(v)) for v in src["vals"]], dtype=np.int64)  # photon counts are stored as integers
+    else:
+        vals = np.array([float(fr(v)) for v in src["vals"]], dtype=float)
     if src["kind"] == "cont":
         return channel.Slice(channel.Continuous(vals, src["start"], src["dt"]))
     if src["kind"] == "ts":
@@ -202,9 +216,38 @@ def show(ts, data):
     return "[" + ",".join(f"{int(t)}:{enc_val(v)}" for t, v in zip(ts, data)) + "]"
 
 
+def show_r(r):
+    """a returned channel: its samples, and -- when it holds any -- that its public `start` is its first timestamp (the
+    result keeps the timestamps: a channel that starts elsewhere than its first sample is shown as such)"""
+    ts = np.asarray(r.timestamps)
+    if len(ts):
+        st = r.start
+        if st is None or int(st) != int(ts[0]):
+            return f"start-is-not-the-first-timestamp:{st}:{int(ts[0])}"
+    return show(ts, r.data)
+
+
+def masked(src, mask):
+    """the channel `s[mask]` as the documentation defines it: exactly the samples whose mask entry is true, with their
+    own timestamps (always a time series)"""
+    if mask is None:
+        return src
+    kept = [(t, v) for (t, _), v, m in zip(src_samples(src), src["vals"], mask) if m]
+    out = {"kind": "ts", "ts": [t for t, _ in kept], "vals": [v for _, v in kept]}
+    return out
+
+
+def build_masked(src, mask):
+    s = build(src)
+    return s if mask is None else s[np.array([bool(m) for m in mask], dtype=bool)]
+
+
 def parse_samples(s):
     """'[t:p/q,...]' -> list of (int, Fraction | 'nan' | 'inf' | '-inf' | 'E')"""
-    inner = s.strip()[1:-1]
+    s = s.strip()
+    if not (s.startswith("[") and s.endswith("]")):
+        return [(-1, "not-a-sample-list:" + s[:80])]  # equal to no expected answer
+    inner = s[1:-1]
     out = []
     if inner == "":
         return out
@@ -618,7 +661,7 @@ def _call(case):
         s = build(case["src"])
         _warm(lambda: s.downsampled_by(case["k"], reduce=_other_reduce(case["reduce"])))
         r = s.downsampled_by(case["k"], **_kw(case, reduce=np_reduce(case["reduce"])))
-        out = [f"ok {period_of(r)} " + show(r.timestamps, r.data)]
+        out = [f"ok {period_of(r)} " + show_r(r)]
         seen = []
 
         def recorder2d(x, axis=None):
@@ -662,7 +705,14 @@ def _call(case):
         return out if in_model(case) else out[:1]
     if k == "neg":
         r = -build(case["a"])
-        return ["ok " + show(r.timestamps, r.data)]
+        return ["ok " + show_r(r)]
+    if k == "arithbad":
+        # an operand that is neither a channel nor a number
+        a = build(case["a"])
+        x = {"none": None, "list": [1.0] * len(case["a"]["vals"]), "dict": {}, "array": np.ones(len(case["a"]["vals"]))}[case["operand"]]
+        f = {"add": lambda x, y: x + y, "sub": lambda x, y: x - y, "mul": lambda x, y: x * y, "div": lambda x, y: x / y}[case["operator"]]
+        r = f(x, a) if case["reversed"] else f(a, x)
+        return ["ok " + (show_r(r) if hasattr(r, "timestamps") else type(r).__name__)]
     if k == "ariths":
         a = build(case["a"])
         x = float(fr(case["x"]))
@@ -670,13 +720,13 @@ def _call(case):
             x = int(x)
         f = {"add": lambda x, y: x + y, "sub": lambda x, y: x - y, "mul": lambda x, y: x * y, "div": lambda x, y: x / y}[case["operator"]]
         r = f(x, a) if case["reversed"] else f(a, x)
-        return ["ok " + show(r.timestamps, r.data)]
+        return ["ok " + show_r(r)]
     if k == "arith3":
         a, b, c = build(case["a"]), build(case["b"]), build(case["c"])
         f1 = {"add": lambda x, y: x + y, "sub": lambda x, y: x - y, "mul": lambda x, y: x * y, "div": lambda x, y: x / y}[case["operator"]]
         f2 = {"add": lambda x, y: x + y, "sub": lambda x, y: x - y, "mul": lambda x, y: x * y, "div": lambda x, y: x / y}[case["operator2"]]
         r = f2(f1(a, b), c)
-        return ["ok " + show(r.timestamps, r.data)]
+        return ["ok " + show_r(r)]
     if k == "step":
         # the conversion alone, in Python's own double arithmetic (the expression the code evaluates)
         fv = freq_value(case["freq_repr"])
@@ -699,11 +749,12 @@ def _call(case):
         r = s.downsampled_to(freq_value(case["freq_repr"]), reduce=np_reduce(case["reduce"]), where=case["where"], method=case["method"])
         return ["ok " + show(r.timestamps, r.data)]
     if k == "arith":
-        a = build(case["a"])
-        b = build(case["b"])
+        # operands may have passed through a boolean mask first (`s[mask]`): arithmetic then sees their kept timestamps
+        a = build_masked(case["a"], case.get("mask_a"))
+        b = build_masked(case["b"], case.get("mask_b"))
         o = case["operator"]
         r = {"add": lambda: a + b, "sub": lambda: a - b, "mul": lambda: a * b, "div": lambda: a / b}[o]()
-        return ["ok " + show(r.timestamps, r.data)]
+        return ["ok " + show_r(r)]
     raise ValueError(k)
 
 
@@ -721,6 +772,8 @@ def in_model(case):
     if case["op"] == "over" and case.get("ranges_shape", "list") != "list":
         return False
     if case["op"] == "over" and any(len(r) != 2 for r in case["ranges"]):
+        return False
+    if case["op"] == "arithbad":
         return False
     for key in ("src", "ref", "a", "b"):
         if key in case and case[key]["kind"] == "tags":
@@ -788,7 +841,7 @@ def ops(case):
             f"{_tok(case['method'], ('safe', 'ceil', 'force'))} {enc_float(float(freq_value(case['freq_repr'])))}"
         ]
     if k == "arith":
-        return [f"c04.arith {case['operator']} {src_tokens(case['a'])} {src_tokens(case['b'])}"]
+        return [f"c04.arith {case['operator']} {src_tokens(masked(case['a'], case.get('mask_a')))} {src_tokens(masked(case['b'], case.get('mask_b')))}"]
     raise ValueError(k)
 
 
@@ -1203,7 +1256,7 @@ def oracle(case, ia):
             return c1
         return oracle_like_windows(case, ia[1])
     if k in ("neg", "ariths", "arith3"):
-        f = {"add": lambda x, y: x + y, "sub": lambda x, y: x - y, "mul": lambda x, y: x * y, "div": lambda x, y: x / y}
+        f = {o: (lambda x, y, o=o: x_op(o, x, y)) for o in ("add", "sub", "mul", "div")}
         sa = src_samples(case["a"])
         toks = split_answer(ans)
         if k == "arith3":
@@ -1255,23 +1308,73 @@ def oracle(case, ia):
         if bad:
             return None if not ans.startswith("ok") else f"to: frequency {rep} accepted: {ans[:100]}"
         return oracle_to(dict(case, freq=float(fv)), ans)[0]
+    if k == "arithbad":
+        return None if ans == "TypeError" else f"arith: an operand that is neither a channel nor a number ({case['operand']}) must be refused with TypeError, got {ans[:100]}"
     if k == "arith":
         a, b = case["a"], case["b"]
         if "tags" in (a["kind"], b["kind"]):
             return None if ans == "NotImplementedError" else f"arith: time tags must be refused, got {ans[:100]}"
-        sa, sb = src_samples(a), src_samples(b)
+        sa, sb = src_samples(masked(a, case.get("mask_a"))), src_samples(masked(b, case.get("mask_b")))
         same = [t for t, _ in sa] == [t for t, _ in sb]
         toks = split_answer(ans)
         if not same:
             return None if ans == "RuntimeError" else f"arith: different timestamps must be refused with RuntimeError, got {ans[:100]}"
         if toks is None:
             return f"arith: identical timestamps refused with {ans}"
-        f = {"add": lambda x, y: x + y, "sub": lambda x, y: x - y, "mul": lambda x, y: x * y, "div": lambda x, y: x / y}[case["operator"]]
-        exp = [(t, f(x, y)) for (t, x), (_, y) in zip(sa, sb)]
+        exp = [(t, x_op(case["operator"], x, y)) for (t, x), (_, y) in zip(sa, sb)]
         if not samples_close(parse_samples(toks[0]), exp):
             return f"arith: expected element-wise {case['operator']} on the same timestamps {str([(t, str(v)) for t, v in exp])[:300]}, got {toks[0][:300]}"
         return None
     return None
+
+
+def _xsign(v):
+    return 1 if v == "inf" else -1 if v == "-inf" else (v > 0) - (v < 0)
+
+
+def _xinf(sign):
+    return "nan" if sign == 0 else "inf" if sign > 0 else "-inf"
+
+
+def x_op(name, x, y):
+    """one sample of `x <name> y` as element-wise array arithmetic defines it (IEEE): operands and result are exact
+    Fractions or 'inf' / '-inf' / 'nan'.  x / 0 is the infinity with the sign of x, 0 / 0 is nan (a zero divisor is
+    +0.0: sources are built from Fractions), and the non-finite values propagate through later operators."""
+    if x == "nan" or y == "nan":
+        return "nan"
+    xi, yi = isinstance(x, str), isinstance(y, str)
+    if name == "sub":
+        name, y = "add", ({"inf": "-inf", "-inf": "inf"}[y] if yi else -y)
+    if name == "add":
+        if xi and yi:
+            return x if x == y else "nan"
+        return x if xi else y if yi else x + y
+    if name == "mul":
+        return _xinf(_xsign(x) * _xsign(y)) if xi or yi else x * y
+    if name == "div":
+        if xi and yi:
+            return "nan"
+        if yi:
+            return Fraction(0)
+        if xi:
+            return _xinf(_xsign(x) * (-1 if y < 0 else 1))
+        return _xinf(_xsign(x)) if y == 0 else x / y
+    raise ValueError(name)
+
+
+def zero_divisions(case):
+    """number of samples of an arithmetic case whose divisor is zero (coverage)"""
+    k = case["op"]
+    z = lambda src: sum(1 for v in src["vals"] if fr(v) == 0)
+    if k == "arith":
+        return z(masked(case["b"], case.get("mask_b"))) if case["operator"] == "div" else 0
+    if k == "ariths":
+        if case["operator"] != "div":
+            return 0
+        return z(case["a"]) if case["reversed"] else (len(case["a"]["vals"]) if fr(case["x"]) == 0 else 0)
+    if k == "arith3":
+        return (z(case["b"]) if case["operator"] == "div" else 0) + (z(case["c"]) if case["operator2"] == "div" else 0)
+    return 0
 
 
 def nontrivial(case, ia):
@@ -1383,6 +1486,28 @@ def _candidates(case):
                 if k == "arith" and key == "a":
                     continue
                 yield c
+    if k in ("arith", "arith3"):
+        keys = [key for key in ("a", "b", "c") if key in case]
+        n = len(case["a"]["vals"])
+        if n > 1 and all(len(case[key]["vals"]) == n for key in keys):
+            # the same positions of every operand (shrinking one operand alone turns the case into a refusal)
+            for lo, hi in ((0, n // 2), (n // 2, n), (1, n), (0, n - 1)):
+                c = dict(case)
+                for key in keys:
+                    src = dict(case[key])
+                    src["vals"] = src["vals"][lo:hi]
+                    if src["kind"] == "cont":
+                        src["start"] = src["start"] + lo * src["dt"]
+                    else:
+                        src["ts"] = src["ts"][lo:hi]
+                    c[key] = src
+                for key in ("mask_a", "mask_b"):
+                    if case.get(key) is not None:
+                        c[key] = case[key][lo:hi]
+                yield c
+        for key in ("mask_a", "mask_b"):
+            if case.get(key) is not None and not all(case[key]):
+                yield dict(case, **{key: [1] * len(case[key])})
     if k == "over" and len(case["ranges"]) > 1:
         for i in range(len(case["ranges"])):
             c = dict(case)
@@ -1732,7 +1857,15 @@ def _cases(tier, rng):
         {"op": "arith", "operator": "mul", "a": c8, "b": cont(101, 10, list(range(8)))},
         {"op": "arith", "operator": "sub", "a": t8, "b": c8},
         {"op": "arith", "operator": "div", "a": c8, "b": cont(100, 11, list(range(1, 9)))},
+        {"op": "by", "src": tags, "reduce": "mean", "k": 2},
+        {"op": "arith", "operator": "add", "a": c8, "b": c8, "mask_a": [1, 1, 0, 1, 1, 1, 1, 1], "mask_b": [1, 1, 1, 0, 1, 1, 1, 1]},
+        {"op": "arith", "operator": "div", "a": c8, "b": t8, "mask_a": [1] * 8, "mask_b": [1] * 7 + [0]},
     ]
+    for operand in ("none", "list", "dict", "array"):
+        for o_ in ("add", "sub", "mul", "div"):
+            for rev in (False, True):
+                if not (rev and operand == "array"):  # ndarray <op> channel is numpy's own broadcasting, not the channel's
+                    mal.append({"op": "arithbad", "operator": o_, "reversed": rev, "operand": operand, "a": c8 if o_ != "mul" else t8})
     for rep in ("0", "-0.0", "nan", "inf", "-inf", "-2e7", "int:0", "int:-5", "1e300", "5e-324"):
         for src_ in (c8, t8):
             mal.append({"op": "tofx", "src": src_, "reduce": "mean", "where": "center", "method": "force", "freq_repr": rep})
@@ -1900,6 +2033,41 @@ def _cases(tier, rng):
                 yield {"stream": "small-scope", "op": "arith3", "operator": op1, "operator2": op2, "a": a, "b": b, "c": c_shift}
                 yield {"stream": "small-scope", "op": "arith3", "operator": op1, "operator2": op2, "a": a, "b": c_shift, "c": b}
 
+    # division where the divisor holds zeros (photon counts): every pair of two-sample channels over {-1, 0, 2}, both
+    # channel kinds, float and integer storage; scalars 0 on either side; chains through which inf / nan propagate
+    zs = [-1, 0, 2]
+    pairs2 = [[x, y] for x in zs for y in zs]
+    for va in pairs2:
+        for vb in pairs2:
+            for kind_i in range(2 if quick else 4):
+                mk = (lambda v: cont(10, 5, v)) if kind_i % 2 == 0 else (lambda v: tser([10, 17], v))
+                a_, b_ = mk(va), mk(vb)
+                if (kind_i + va[0] + vb[1]) % 2:
+                    a_, b_ = dict(a_, dtype="int"), dict(b_, dtype="int")
+                yield {"stream": "small-scope", "op": "arith", "operator": "div", "a": a_, "b": b_}
+    for va in ([0], [0, 0, 0], [-3, 0, 4, 0, "1/2"], [0, 1, 0, -1, 0, 0, 7]):
+        for x_ in (cont(10, 5, va), tser([10 + 3 * i * i for i in range(len(va))], va), dict(cont(10, 5, va), dtype="int")):
+            for op in ("add", "sub", "mul", "div"):
+                for rev in (False, True):
+                    for sc, form in ((0, "int"), (0, "float"), (-2, "int"), ("3/2", "float")):
+                        yield {"stream": "small-scope", "op": "ariths", "operator": op, "reversed": rev, "x": sc, "x_form": form, "a": x_}
+    # operands that went through a boolean mask first: every pair of masks on three samples
+    for kind_i, (A, B) in enumerate(((cont(10, 5, [1, -2, 0]), cont(10, 5, [4, 0, 0])), (tser([3, 4, 9], [1, -2, 0]), tser([3, 4, 9], [4, 0, 0])))):
+        for ma in range(8):
+            for mb in range(8):
+                yield {"stream": "small-scope", "op": "arith", "operator": ("div", "add", "sub", "mul")[(ma + mb + kind_i) % 4 if ma != mb else 0], "a": A, "b": B,
+                       "mask_a": [(ma >> j) & 1 for j in range(3)], "mask_b": [(mb >> j) & 1 for j in range(3)]}
+    a6 = [1, -1, 0, 2, -2, 0]
+    b6 = [0, 0, 0, 1, 0, -4]
+    c6 = [0, -1, 2, 0, 0, 0]
+    for op1 in ("add", "sub", "mul", "div"):
+        for op2 in ("add", "sub", "mul", "div"):
+            for j, (u, v, w) in enumerate(((a6, b6, c6), (b6, c6, a6), (c6, a6, b6))):
+                A = cont(50, 4, u)
+                B = tser([50 + 4 * i for i in range(6)], v) if j % 2 else cont(50, 4, v)
+                C = dict(cont(50, 4, w), dtype="int") if j == 2 else tser([50 + 4 * i for i in range(6)], w)
+                yield {"stream": "small-scope", "op": "arith3", "operator": op1, "operator2": op2, "a": A, "b": B, "c": C}
+
     # ---- random
     N = 4000 if quick else 150000
     r = r_random
@@ -2007,7 +2175,13 @@ def _cases(tier, rng):
             n = sub.randint(0, 30)
             op = sub.choice(["add", "sub", "mul", "div"])
             va = rand_vals(sub, n)
-            vb = [v if fr(v) != 0 else 3 for v in rand_vals(sub, n)] if op == "div" else rand_vals(sub, n)
+            vb = rand_vals(sub, n)
+            counts = sub.chance(0.35)  # photon-count like operands: mostly zeros, small integers (some signed)
+            if counts:
+                sgn = sub.choice([1, 1, -1])
+                va = [sub.choice([0, 0, 1, 2, sgn * sub.randint(1, 9)]) for _ in range(n)]
+                vb = [sub.choice([0, 0, 0, 1, sgn * sub.randint(1, 3)]) for _ in range(n)]
+            int_store = counts and sub.chance(0.5)
             if sub.chance(0.5):
                 a = rand_cont(sub)
                 a["vals"] = va
@@ -2033,19 +2207,32 @@ def _cases(tier, rng):
             elif mut == 2 and b["kind"] == "cont":
                 b = cont(b["start"] + sub.choice([1, -1, b["dt"]]), b["dt"], vb)
             base.update({"op": "arith", "operator": op, "a": a, "b": b})
+            if sub.chance(0.15) and len(a["vals"]) == len(b["vals"]):
+                m_ = [int(sub.chance(0.7)) for _ in a["vals"]]
+                m2 = list(m_)
+                if m2 and sub.chance(0.3):
+                    j_ = sub.randint(0, len(m2) - 1)
+                    m2[j_] = 1 - m2[j_]
+                base.update({"mask_a": m_, "mask_b": m2})
             form = sub.randint(0, 5)
             if form == 0:
                 base = {"stream": "random", "subseed": i, "op": "neg", "a": a}
             elif form == 1:
-                xs = sub.choice([2, -3, "7/4", "-1/8", 10])
+                xs = sub.choice([2, -3, "7/4", "-1/8", 10, 0])
                 base = {"stream": "random", "subseed": i, "op": "ariths", "operator": op, "reversed": sub.chance(0.5), "x": xs,
-                        "x_form": sub.choice(["int", "float"]), "a": dict(a, vals=[v if fr(v) != 0 else 3 for v in a["vals"]])}
+                        "x_form": sub.choice(["int", "float"]), "a": a}
             elif form == 2 and mut > 2:
-                vc = [v if fr(v) != 0 else 3 for v in rand_vals(sub, len(a["vals"]))]
+                vc = rand_vals(sub, len(a["vals"])) if not counts else [sub.choice([0, 0, 1, -2, 3]) for _ in a["vals"]]
                 c3 = tser(a_ts, vc) if sub.chance(0.5) or a["kind"] != "cont" else cont(a["start"], a["dt"], vc)
                 if sub.chance(0.25) and a_ts:
                     c3 = tser(a_ts[:-1] + [a_ts[-1] + 1], vc)
                 base.update({"op": "arith3", "operator2": sub.choice(["add", "sub", "mul", "div"]), "c": c3})
+                base.pop("mask_a", None)
+                base.pop("mask_b", None)
+            if int_store:
+                for key in ("a", "b", "c"):
+                    if key in base:
+                        base[key] = dict(base[key], dtype="int")
         yield base
 
 
@@ -2106,6 +2293,21 @@ def extra_coverage(results):
                 g = len(parse_samples(toks[0]))
                 n = len(c["src"]["vals"])
                 getitem_sizes["empty result" if g == 0 else "whole source" if g == n else "part of the source"] += 1
+    zero_div = {"arithmetic cases": 0, "with a zero divisor": 0, "samples divided by zero": 0, "inf results": 0, "nan results": 0,
+                "integer-stored operands": 0}
+    for r in results:
+        c = r["case"]
+        if c["op"] in ("arith", "ariths", "arith3", "neg"):
+            zero_div["arithmetic cases"] += 1
+            zero_div["integer-stored operands"] += c["a"].get("dtype") == "int"
+            toks = split_answer(r["impl"][0])
+            if toks is not None:
+                z = zero_divisions(c)
+                zero_div["with a zero divisor"] += z > 0
+                zero_div["samples divided by zero"] += z
+                vals = [v for _, v in parse_samples(toks[0])]
+                zero_div["inf results"] += sum(1 for v in vals if v in ("inf", "-inf"))
+                zero_div["nan results"] += sum(1 for v in vals if v == "nan")
     defaults_used = {"reduce": 0, "where": 0, "method": 0}
     for r in results:
         c = r["case"]
@@ -2119,6 +2321,7 @@ def extra_coverage(results):
         "like_windows_handed_to_reduce": like_windows,
         "frequency_forms_converted_by_the_model": freq_forms,
         "getitem_results": getitem_sizes,
+        "division_by_zero (x/0 = +-inf, 0/0 = nan, element-wise)": zero_div,
         "case_kinds": kinds,
         "error_kinds": errs,
         "source_sizes": sizes,
